@@ -754,6 +754,18 @@ def _posmax_store_ok(c: Ctx, f: Func, stmt: ast.AST, val: ast.AST | None) -> str
         kinds = set()
         for d in ds:
             v = d.value
+            if d.kind == "param":
+                # a helper's parameter: every caller must pass such a value
+                sites = [x for x in c.cg.callers.get(f, []) if x.kind in ("direct", "method")]
+                if not sites or len(sites) != len(c.cg.callers.get(f, [])):
+                    return ""
+                for x in sites:
+                    a_ = c.eff.arg_for_param(x, f, val.id)
+                    how_ = _posmax_store_ok(c, x.caller, x.node, a_) if a_ is not None else ""
+                    if not how_:
+                        return ""
+                    kinds.add("restore" if how_.startswith("restore") else "labelEnd")
+                continue
             if d.kind == "assign" and isinstance(v, ast.Attribute) and v.attr == "posMax":
                 # restore: the saving read must see the entry value (no earlier store on any path)
                 kinds.add("restore")
